@@ -520,7 +520,19 @@ func (o *ObsC10) check(x *Exec, quiescent bool) *vcore.Failure {
 	for ip := range o.dropped {
 		// the record of the very pod it was taken from is back (the pod-IP sync re-creates it): the ordinary rules apply again.
 		// A record for anybody else is a fresh allocation, whose first assignment meets the provider's left-over one
-		if f, held := alloc[ip]; held && [2]string{f.Key, f.PodUid} == o.dropHold[ip] && f.PodUid != "" {
+		f, held := alloc[ip]
+		if !held || [2]string{f.Key, f.PodUid} != o.dropHold[ip] || f.PodUid == "" {
+			continue
+		}
+		// ... and it is the record of a pod that runs with the address (what the pod-IP sync restores), not a fresh allocation
+		// for a pod that was never bound (its filter) or is being bound elsewhere
+		boundHolder := false
+		for _, lp := range x.livePods() {
+			if lp.UID == f.PodUid && lp.Node == o.state[ip] {
+				boundHolder = true
+			}
+		}
+		if boundHolder && (f.NodeName == "" || f.NodeName == o.state[ip]) {
 			delete(o.dropped, ip)
 		}
 	}
